@@ -39,7 +39,8 @@ func buildDiag(files []*source.File, dm map[string]any) report.Diagnostic {
 	v := report.VerifDiagnostic{
 		Tag: hs(dm, "tag"), Message: hs(dm, "msg"), Level: int(vhlib.Num(dm, "level")),
 		SortOrder: int(vhlib.Num(dm, "sort")),
-		Notes:     []string{strconv.FormatInt(vhlib.Num(dm, "id"), 10)},
+		// zero-padded: the string order of the notes is the numeric order of the ids
+		Notes: []string{fmt.Sprintf("%08d", vhlib.Num(dm, "id"))},
 	}
 	if vhlib.Bool(dm, "decoy") && len(files) > 0 {
 		// a non-primary snippet in front of the primary one: Primary() must skip it
